@@ -183,10 +183,11 @@ func c11Worker(c *mc.Ctx) {
 	} else {
 		addRS("r1-s4", &lexref.RuleSets{Pools: []*lexref.Pool{lexref.NewPool(leaves, cards, 4)}, Kinds: 3}, 0)
 		addRS("r2-s2", &lexref.RuleSets{Pools: []*lexref.Pool{p2, p2}, Kinds: 3}, 0)
-		addRS("r2-s3s2", &lexref.RuleSets{Pools: []*lexref.Pool{p3, p2}, Kinds: 3}, 200000)
-		addRS("r3-s1", &lexref.RuleSets{Pools: []*lexref.Pool{p1, p1, p1}, Kinds: 3}, 0)
+		addRS("r2-s3s2", &lexref.RuleSets{Pools: []*lexref.Pool{p3, p2}, Kinds: 3}, 40000)
+		addRS("r3-s1", &lexref.RuleSets{Pools: []*lexref.Pool{p1, p1, p1}, Kinds: 3}, 30000)
 	}
-	for _, f := range c07Spaces(c.Quick()) {
+	// mode graphs: the quick spaces in both tiers (the thorough tier goes deeper in stack depth and input length)
+	for _, f := range c07Spaces(true) {
 		f := f
 		fams = append(fams, fam{"modes-" + f.name, f.sp.Size(), f.sp.Get, f.limit})
 	}
